@@ -3,6 +3,8 @@
 proof gate (coq/Props/C08.v: ordering/sign logic of correlation_function and _term_to_ops_list, unbounded) + streams
   state     random finite / segment / infinite MPS (harness/c08_gen.py) x every measurement function, each returned number next
             to the dense <bra|O|ket> built with numpy.kron from the documentation operators (oracle)
+            states without charge, with U(1), Z_2 and Z_3 charges (clock sites, Sz / N modulo 3); term lists mix charged and
+            uncharged terms; the measurement functions are enumerated by reflection, coverage table function x charge type in the evidence
   env       MPSEnvironment with bra != ket
   overlap   finite (norms, ignore_form) and infinite (dominant eigenvalue of the dense transfer matrix)
   ops_list  _term_to_ops_list  vs  Model/JW.v term_to_ops_list (vm_compute)
@@ -29,6 +31,39 @@ F20_KEY = 'C08:term_correlation_function_left:autoJW:odd-parity-terms:JW_from_ri
 F21_KEY = 'C08:expectation_value_terms_sum:infinite:max_range-in-sites-passed-as-unit-cells:term-beyond-contracted-sites'
 
 
+# which measurement functions of tenpy.networks.mps one measurement record of the stream state/env calls
+CALLS = {'ev': ['expectation_value'], 'ev_multi': ['expectation_value'], 'ev_multi_sites': ['expectation_value_multi_sites'],
+         'ev_term': ['expectation_value_term'], 'terms_sum': ['expectation_value_terms_sum'], 'corr': ['correlation_function'],
+         'corr_words': ['correlation_function'], 'tcf_right': ['term_correlation_function_right'], 'tcf_left': ['term_correlation_function_left'],
+         'tlcf_right': ['term_list_correlation_function_right'], 'rho': ['get_rho_segment'],
+         'mutinf': ['mutinf_two_site', 'entanglement_entropy_segment'],
+         'ent': ['entanglement_entropy', 'entanglement_spectrum', 'entanglement_entropy_segment2'],
+         'prob_charge': ['probability_per_charge', 'average_charge', 'charge_variance'], 'sample': ['sample_measurements'], 'overlap': ['overlap']}
+# reflected names that are deliberately not compared with a dense reference here (reason)
+NOT_COMPARED = {'correlation_length': 'property of the transfer matrix spectrum, not a measurement of C08\'s list',
+                'correlation_length2': 'same', 'correlation_length_charge_sectors': 'same',
+                'overlap_translate_finite': 'translation operator: not in the property\'s list of measurements'}
+
+
+def charge_type(sites):
+    """'none' | 'U1' | 'Z2' | 'Z3' (joined with + when the sites carry several charges)"""
+    out = set()
+    for cls, kw in sites:
+        vals = [kw.get(k) for k in ('conserve', 'cons_N', 'cons_Sz') if k in kw]
+        for v in vals:
+            if v in (None, 'None'):
+                continue
+            if kw.get('_mod'):
+                out.add('Z%d' % kw['_mod'])
+            elif v == 'parity':
+                out.add('Z2')
+            elif cls == 'ClockSite':
+                out.add('Z%d' % kw['q'])
+            else:
+                out.add('U1')
+    return '+'.join(sorted(out)) or 'none'
+
+
 def terms_sum_truncated(state, m):
     """infinite MPS: expectation_value_terms_sum passes ct.max_range() (in sites) to MPO.expectation_value_power, which contracts only
     max(max_range, 1) * L sites; True when some term starting in the first unit cell reaches beyond them"""
@@ -41,7 +76,8 @@ def terms_sum_truncated(state, m):
     return any((min(i for _, i in t) % L) + r > last for t, r in zip(m['terms'], rng_)) or last == 0
 NEUTRAL = {'SpinHalfSite': [('Sp', 'Sm'), ('Sm', 'Sp'), ('Sz', 'Sz')], 'SpinSite': [('Sp', 'Sm'), ('Sm', 'Sp'), ('Sz', 'Sz')],
            'FermionSite': [('Cd', 'C'), ('C', 'Cd'), ('N', 'N'), ('dN', 'N')], 'BosonSite': [('Bd', 'B'), ('B', 'Bd'), ('N', 'N')],
-           'SpinHalfFermionSite': [('Cdu', 'Cu'), ('Cu', 'Cdu'), ('Cdd', 'Cd'), ('Ntot', 'Sz'), ('Sp', 'Sm')]}
+           'SpinHalfFermionSite': [('Cdu', 'Cu'), ('Cu', 'Cdu'), ('Cdd', 'Cd'), ('Ntot', 'Sz'), ('Sp', 'Sm')],
+           'ClockSite': [('X', 'Xhc'), ('Xhc', 'X'), ('Z', 'Zhc'), ('Z', 'Z'), ('Zhc', 'Z')]}
 
 
 def spec(cls, **kw):
@@ -55,7 +91,11 @@ def cplx(lst):
 SPIN_OPS = ['Sz', 'Sp', 'Sm']
 FERM = {'FermionSite': ['C', 'Cd'], 'SpinHalfFermionSite': ['Cu', 'Cdu', 'Cd', 'Cdd']}
 EVEN = {'FermionSite': ['N', 'dN'], 'SpinHalfFermionSite': ['Nu', 'Nd', 'Ntot', 'Sz', 'Sp', 'Sm'], 'SpinHalfSite': ['Sz', 'Sp', 'Sm'],
-        'SpinSite': ['Sz', 'Sp', 'Sm'], 'BosonSite': ['N', 'B', 'Bd']}
+        'SpinSite': ['Sz', 'Sp', 'Sm'], 'BosonSite': ['N', 'B', 'Bd'], 'ClockSite': ['X', 'Xhc', 'Z', 'Zhc']}
+# hermitian conjugates (operator names of the documentation tables)
+HC = {'Sp': 'Sm', 'Sm': 'Sp', 'Sz': 'Sz', 'Sx': 'Sx', 'Sy': 'Sy', 'N': 'N', 'dN': 'dN', 'B': 'Bd', 'Bd': 'B', 'Nu': 'Nu', 'Nd': 'Nd',
+      'Ntot': 'Ntot', 'X': 'Xhc', 'Xhc': 'X', 'Z': 'Zhc', 'Zhc': 'Z', 'Xphc': 'Xphc', 'Zphc': 'Zphc'}
+HC_F = {'FermionSite': {'C': 'Cd', 'Cd': 'C'}, 'SpinHalfFermionSite': {'Cu': 'Cdu', 'Cdu': 'Cu', 'Cd': 'Cdd', 'Cdd': 'Cd'}}
 
 
 def has_xy(s):
@@ -64,7 +104,7 @@ def has_xy(s):
 
 
 def even_ops(s):
-    return EVEN[s[0]] + (['Sx', 'Sy'] if has_xy(s) else [])
+    return EVEN[s[0]] + (['Sx', 'Sy'] if has_xy(s) else []) + (['Xphc', 'Zphc'] if s[0] == 'ClockSite' and s[1].get('conserve') == 'None' else [])
 
 
 def state_specs(rng, ctx):
@@ -88,11 +128,27 @@ def state_specs(rng, ctx):
     out.append(({'kind': 'finite', 'sites': [spec('BosonSite', Nmax=2, conserve='N')] * 4, 'chi_max': 3}, 'finite'))
     out.append(({'kind': 'finite', 'sites': [F('None'), SH('None')] * 2 + [F('None')]}, 'finite'))
     out.append(({'kind': 'finite', 'sites': [F('None'), F('None'), SH('None'), F('None')]}, 'finite'))
+    # Z_3 charges: clock sites, and U(1) charges kept only modulo 3 (Sz of spin 1, fermion number) through Site.change_charge
+    CL3 = lambda c: spec('ClockSite', q=3, conserve=c)   # noqa: E731
+    S1M3 = spec('SpinSite', S=1.0, conserve='Sz', _mod=3)
+    FM3 = spec('FermionSite', conserve='N', _mod=3)
+    for L in [3, 4, 5]:
+        out.append(({'kind': 'finite', 'sites': [CL3('Z')] * L, 'chi_max': rng.choice([None, None, 3])}, 'finite'))
+    out.append(({'kind': 'finite', 'sites': [CL3('None')] * 3}, 'finite'))
+    out.append(({'kind': 'finite', 'sites': [S1M3] * rng.choice([3, 4])}, 'finite'))
+    out.append(({'kind': 'finite', 'sites': [FM3] * rng.choice([4, 5, 6]), 'chi_max': rng.choice([None, 3])}, 'finite'))
+    out.append(({'kind': 'finite', 'sites': [spec('SpinHalfSite', conserve='Sz', _mod=2)] * 5}, 'finite'))
     for (big, first, n) in [(6, 1, 3), (7, 2, 4), (5, 1, 2)]:
-        s = SH(rng.choice(['Sz', 'None']))
+        s = SH(rng.choice(['Sz', 'None', 'parity']))
         out.append(({'kind': 'segment', 'big_sites': [s] * big, 'first': first, 'sites': [s] * n}, 'segment'))
-        f = F(rng.choice(['N', 'None']))
+        f = F(rng.choice(['N', 'None', 'parity']))
         out.append(({'kind': 'segment', 'big_sites': [f] * big, 'first': first, 'sites': [f] * n}, 'segment'))
+    z3 = rng.choice([CL3('Z'), S1M3, FM3])
+    out.append(({'kind': 'segment', 'big_sites': [z3] * 5, 'first': 1, 'sites': [z3] * 3}, 'segment'))
+    # infinite MPS with charges (U(1), Z_2, Z_3)
+    for cell in [[SH(rng.choice(['Sz', 'parity']))] * 2, [F(rng.choice(['N', 'parity']))] * rng.choice([2, 3]), [SH('parity')] * 2, [F('parity')] * 2,
+                 [rng.choice([CL3('Z'), S1M3, FM3])] * 2]:
+        out.append(({'kind': 'infinite', 'sites': cell, 'chi': 4, 'charged': True, 'steps': rng.choice([3, 4])}, 'infinite'))
     for cell in [[SH('None')], [SH('None')] * 2, [SH('None')] * 3, [F('None')], [F('None')] * 2, [F('None'), SH('None')],
                  [spec('SpinSite', S=1.0, conserve='None')], [F('None'), F('None'), SH('None')]]:
         out.append(({'kind': 'infinite', 'sites': cell, 'chi': rng.choice([2, 3])}, 'infinite'))
@@ -180,7 +236,7 @@ def gen_measurements(rng, st, tag, env=False):
             kw['sites2'] = sorted(rng.sample(range(L), rng.randint(1, L)))
         ms.append({'f': 'corr', 'ops1': [a], 'ops2': [b], 'kwargs': kw})
         # hermitian shortcut (op2 = op1^dagger), with equal and with different site lists
-        hc = {'Sp': 'Sm', 'Sm': 'Sp', 'Sz': 'Sz', 'Sx': 'Sx', 'Sy': 'Sy', 'N': 'N', 'dN': 'dN', 'B': 'Bd', 'Bd': 'B', 'Nu': 'Nu', 'Nd': 'Nd', 'Ntot': 'Ntot'}
+        hc = HC
         a = rng.choice([o for o in ops if o in hc])
         kw = {'hermitian': True}
         if rng.random() < 0.4 and L >= 3 and fin:
@@ -227,8 +283,13 @@ def gen_measurements(rng, st, tag, env=False):
         elif homog:
             ms.append({'f': 'tcf_right', 'term_L': tL, 'term_R': tR, 'i_L': 0, 'j_R': [L, 2 * L]})
             ms.append({'f': 'tcf_left', 'term_L': tL, 'term_R': tR, 'i_L': [-L, -2 * L], 'j_R': 0})
+    # --- correlation functions between sums of terms (TermLists mixing charged and uncharged, bosonic and fermionic terms)
+    for _ in range(3 if homog else 2):
+        m = gen_tlcf(rng, st, sites, L, fin, homog, ev, fo, fsites)
+        if m is not None:
+            ms.append(m)
     if env:
-        return [m for m in ms if m['f'] in ('ev', 'ev_multi', 'ev_multi_sites', 'ev_term', 'corr', 'terms_sum', 'tcf_right', 'tcf_left')
+        return [m for m in ms if m['f'] in ('ev', 'ev_multi', 'ev_multi_sites', 'ev_term', 'corr', 'terms_sum', 'tcf_right', 'tcf_left', 'tlcf_right')
                 and not m.get('lists') and not m.get('kwargs', {}).get('hermitian')]
     # --- density matrices, entropies
     if span >= 2:
@@ -240,6 +301,8 @@ def gen_measurements(rng, st, tag, env=False):
             ms.append({'f': 'rho', 'segment': [0, 2, 3]})
     if st['kind'] == 'finite' and L >= 3:
         ms.append({'f': 'mutinf', 'seg2': True})
+    if st['kind'] == 'finite' and L >= 2:
+        ms.append({'f': 'ent', 'n': rng.choice([1, 1, 2, 3]), 'segment': sorted(rng.sample(range(L), rng.randint(1, min(L - 1, 3))))})
     if st['kind'] == 'infinite':
         ms.append({'f': 'mutinf', 'max_range': 2})
     # --- charges, sampling
@@ -262,6 +325,85 @@ def gen_measurements(rng, st, tag, env=False):
     elif st['kind'] == 'infinite':
         ms.append({'f': 'sample', 'seed': rng.randrange(10 ** 6), 'first': 0, 'last': L, 'complex_amplitude': True})
     return ms
+
+
+NEUTRAL_OPS = {'Sz', 'N', 'dN', 'Nu', 'Nd', 'Ntot', 'Z', 'Zhc'}
+
+
+def site_dim(s):
+    cls, kw = s
+    return {'SpinHalfSite': 2, 'FermionSite': 2, 'SpinHalfFermionSite': 4}.get(cls) or (
+        int(kw['q']) if cls == 'ClockSite' else int(kw['Nmax']) + 1 if cls == 'BosonSite' else int(round(2 * float(kw.get('S', 0.5)) + 1)))
+
+
+def gen_tlcf(rng, st, sites, L, fin, homog, ev, fo, fsites):
+    """one call of term_list_correlation_function_right: two TermLists (2-4 terms of 1-3 operators in windows of 1-2 sites, written
+    relative to arbitrary origins, also negative relative indices), i_L, j_R (several offsets / the default None), complex strengths;
+    operators of every kind the sites offer (charged and uncharged, fermionic and bosonic)"""
+    if fin and L < 2:
+        return None
+    cls = [s_[0] for s_ in sites]
+    auto = not (rng.random() < 0.2)
+    if fin:
+        wL = rng.randint(1, min(2, L - 1))
+        wR = rng.randint(1, min(2, L - wL))
+        a = rng.randint(0, L - wL - wR)
+        starts = list(range(a + wL, L - wR + 1))
+        bs = sorted(rng.sample(starts, min(len(starts), rng.randint(1, 3)))) if homog else [rng.choice(starts)]
+    else:
+        # the dense reference builds the operator on the whole window: at most 256 dimensions
+        dmax = max(site_dim(s_) for s_ in sites)
+        nmax = 8 if dmax == 2 else (5 if dmax == 3 else 4)
+        wL, wR = rng.randint(1, 2), rng.randint(1, 2)
+        a = rng.randint(-L, L)
+        starts = list(range(a + wL, a + nmax - wR + 1))
+        b0 = rng.choice(starts[:3])
+        more = [b for b in starts if b > b0 and (b - b0) % L == 0]
+        bs = sorted(set([b0] + rng.sample(more, min(len(more), rng.randint(0, 2)))))
+
+    def one_term(start, w):
+        t = []
+        for _ in range(rng.choice([1, 1, 2, 3])):
+            k = start + rng.randrange(w)
+            fermi = auto and (k % L) in fsites and rng.random() < 0.5
+            t.append([fo(k) if fermi else ev(k), k])
+        return t
+
+    def one_list(start, w):
+        n = rng.randint(2, 4)
+        return [one_term(start, w) for _ in range(n)]
+    absL, absR = one_list(a, wL), one_list(bs[0], wR)
+    # make it likely that charged terms of the left list find a partner of opposite charge in the right list
+    singles = [t[0] for t in absL if len(t) == 1]
+    if singles and rng.random() < 0.8:
+        op, k = rng.choice(singles)
+        kR = bs[0] + rng.randrange(wR)
+        if homog or (not fin and (kR - k) % L == 0):
+            partner = HC.get(op) or HC_F.get(cls[k % L], {}).get(op)
+            if partner is not None:
+                absR.insert(rng.randrange(len(absR) + 1), [[partner, kR]])
+    oL = a + rng.choice([0, 0, 0, 1, -1])
+    oR = bs[0] + rng.choice([0, 0, 0, 1, -2])
+    tLs = [[[op, k - oL] for op, k in t] for t in absL]
+    tRs = [[[op, k - oR] for op, k in t] for t in absR]
+
+    def strengths(n):
+        return [[round(rng.uniform(-1, 1), 3), round(rng.uniform(-1, 1), 3) if rng.random() < 0.5 else 0.0] for _ in range(n)]
+    m = {'f': 'tlcf_right', 'terms_L': tLs, 'strength_L': strengths(len(tLs)), 'terms_R': tRs, 'strength_R': strengths(len(tRs)),
+         'i_L': oL, 'j_R': [oR + (b - bs[0]) for b in bs]}
+    rng.shuffle(m['j_R'])
+    min_L = min(i for t in tLs for _, i in t)
+    min_R = min(i for t in tRs for _, i in t)
+    max_R = max(i for t in tRs for _, i in t)
+    if st['kind'] == 'finite' and homog and min_L == min_R and max_R >= 0 and rng.random() < 0.3:
+        m['j_R'] = None     # documented default: all positions right of the left list
+    if not auto:
+        m['autoJW'] = False
+        # opstr: operators that carry no charge (diagonal ones; any operator when nothing is conserved).  With a charged opstr the
+        # function pairs the partial contractions by the charge they had BEFORE the string was applied (see the report of C08_n2).
+        pool = [o for o in even_ops(sites[0]) if o in NEUTRAL_OPS or charge_type(sites) == 'none']
+        m['opstr'] = rng.choice([None] + pool[:1] + pool) if homog and pool else None
+    return m
 
 
 # ---------------------------------------------------------------------- exact states for the stream sample_loop
@@ -405,6 +547,8 @@ def judge(ctx, case, tag, m, r, tol):
     if what == 'prob_charge' and r.get('nonmod') and len(r['avg']) == len(r['avg_want']):
         if np.max(np.abs(cplx(r['avg']) - cplx(r['avg_want']))) > t:
             ctx.fail('oracle', 'average_charge %s, dense %s' % (r['avg'], r['avg_want']), info, match_key='C08:average_charge')
+        if len(r['var']) == len(r.get('var_want', [])) and np.max(np.abs(cplx(r['var']) - cplx(r['var_want']))) > 10 * t:
+            ctx.fail('oracle', 'charge_variance %s, dense %s' % (r['var'], r['var_want']), info, match_key='C08:charge_variance')
     return True
 
 
@@ -622,6 +766,12 @@ def main(ctx):
     ctx.proof = common.check_proofs('C08', extra_targets=['Model/SampleCheck.vo', 'Model/CorrTermCheck.vo'])
     boost = 1 if ctx.proof.ok else 3
     hist = {}
+    table = {}       # measurement function -> {'MPS' | 'MPSEnvironment': {charge type: number of calls compared with the dense value}}
+
+    def tally(kind, cls_, ctype):
+        for fn in CALLS[kind]:
+            d = table.setdefault(fn, {}).setdefault(cls_, {})
+            d[ctype] = d.get(ctype, 0) + 1
 
     # ------------------------------------------------------------------ states x measurements
     cases = []
@@ -645,15 +795,22 @@ def main(ctx):
             ok = judge(ctx, case, case['tag'], m, rec, tol)
             key = case['tag'] + ':' + m['f']
             hist[key] = hist.get(key, 0) + 1
-            ctx.count(case['tag'], [case['state'], case['seed'], m], nontrivial='error' not in rec and max(r['chi'] + [1]) > 1,
+            nontriv = 'error' not in rec and max(r['chi'] + [1]) > 1
+            if m['f'] == 'tlcf_right' and nontriv:
+                nontriv = max(rec.get('max_part', [0.0]) + [0.0]) > 1e-6      # some product of terms has a non-zero value
+            if 'error' not in rec:
+                tally(m['f'], 'MPSEnvironment' if case.get('bra') else 'MPS', charge_type(case['state']['sites']))
+            ctx.count(case['tag'], [case['state'], case['seed'], m], nontrivial=nontriv,
                       sample={'state': case['state'], 'chi': r['chi'], 'measure': m})
 
     # ------------------------------------------------------------------ overlaps
     ocases = []
     for i in range(ctx.pick(24, 200) * boost):
-        cons = rng.choice(['Sz', 'parity', 'None'])
-        L = rng.randint(2, 6)
-        ocases.append({'kind': 'finite', 'sites': [spec('SpinHalfSite', conserve=cons)] * L, 'seed': rng.randrange(10 ** 8),
+        cons = rng.choice(['Sz', 'parity', 'None', 'Z3'])
+        L = rng.randint(2, 6 if cons != 'Z3' else 5)
+        osite = spec('SpinHalfSite', conserve=cons) if cons != 'Z3' else rng.choice([spec('ClockSite', q=3, conserve='Z'),
+                                                                                    spec('SpinSite', S=1.0, conserve='Sz', _mod=3)])
+        ocases.append({'kind': 'finite', 'sites': [osite] * L, 'seed': rng.randrange(10 ** 8),
                        'chi_a': rng.choice([None, 2]), 'chi_b': rng.choice([None, 3]), 'norm_a': rng.choice([1.0, 0.5, 2.0]),
                        'norm_b': rng.choice([1.0, 1.5])})
     for i in range(ctx.pick(10, 60) * boost):
@@ -674,6 +831,7 @@ def main(ctx):
         if case['kind'] == 'infinite' and r.get('gap', 1) < 1e-3:
             nontriv = False          # (nearly) degenerate dominant eigenvalue: not decidable
         ctx.count('overlap', case, nontrivial=nontriv)
+        tally('overlap', 'MPS', charge_type(case['sites']))
         if nontriv and np.max(np.abs(got - want)) > tol:
             ctx.fail('oracle', 'overlap (%s): %s, dense value %s' % (case['kind'], list(got), list(want)), {'stream': 'overlap', 'case': case},
                      match_key='C08:overlap:' + case['kind'])
@@ -880,6 +1038,28 @@ def main(ctx):
                     ctx.fail('correspondence', 'correlation_function %s = %r but the product operator of Model/Corr.v gives %r'
                              % (case['measure'][0], complex(got[0]), complex(want[0])), {'stream': 'corr_words', 'case': case})
     ctx.cov['input_distribution'] = hist
+    # ------------------------------------------------------------------ coverage of the measurement functions (by reflection)
+    (refl, err), = common.run_impl_parallel('c08_impl.py', [{'kind': 'reflect', 'cases': [{}]}], timeout=300)
+    if err or not isinstance(refl[0], dict) or 'runner_error' in refl[0]:
+        ctx.fail('correspondence', 'reflection of the measurement functions failed: %s' % (err or refl)[-400:], None)
+    else:
+        rows, missing = {}, []
+        for cname in ('MPS', 'MPSEnvironment'):
+            for fn in refl[0][cname]:
+                if fn in NOT_COMPARED:
+                    rows['%s.%s' % (cname, fn)] = 'not compared: ' + NOT_COMPARED[fn]
+                    continue
+                got_ = table.get(fn, {}).get(cname, {})
+                rows['%s.%s' % (cname, fn)] = dict(sorted(got_.items()))
+                if not got_:
+                    missing.append('%s.%s' % (cname, fn))
+                elif cname == 'MPS' and not (any(k.startswith('Z') for k in got_) and 'U1' in got_ and
+                                             ('none' in got_ or fn in CALLS['prob_charge'])):
+                    missing.append('%s.%s (charge types %s only)' % (cname, fn, sorted(got_)))
+        ctx.cov['measurement_function_coverage (calls compared with the dense value, per charge type of the state)'] = rows
+        for x in missing:
+            ctx.fail('correspondence', 'measurement function %s of tenpy.networks.mps (found by reflection) is not exercised by the '
+                     'harness on states without charge, with a U(1) and with a Z_N charge' % x, {'stream': 'coverage', 'function': x})
     ctx.assumptions += [
         'C08 dense reference: the state vector is recomputed with numpy from the B tensors and singular values the MPS object holds '
         '(windows S[i0] B[i0]..B[i0+n-1] for segment and infinite MPS); canonical form of the generated states is assumed (C07/C09)',
@@ -891,8 +1071,10 @@ def main(ctx):
                       'models compared with the implementation; every measurement function compared with dense <bra|O|ket>')
 
 
-RULE = ('state: one case per (state, measurement call); states: finite L=2-7 (SpinHalf/Spin-1/Fermion/SpinHalfFermion/Boson/mixed, several '
-        'conserve options, random entangled, optionally compressed to chi 2-3), segments cut out of finite states, infinite unit cells 1-3; '
+RULE = ('state: one case per (state, measurement call); states: finite L=2-7 (SpinHalf/Spin-1/Fermion/SpinHalfFermion/Boson/Clock/mixed, '
+        'no / U(1) / Z_2 / Z_3 charges (clock sites, Sz or N modulo 3), random entangled, optionally compressed to chi 2-3), segments cut '
+        'out of finite states, infinite unit cells 1-3 (without charges: random tensors; with charges: random charge-conserving circuits); '
+        'term_list_correlation_function_right: non-trivial when additionally some product of a left and a right term is non-zero; '
         'non-trivial when the state has a bond dimension > 1 and the call did not raise; env: same with a different random bra; '
         'ops_list/corr_words: random terms / (i, j, opstr, str_on_first) tuples; sample_loop: one case per sample_measurements call on an '
         'exactly representable MPS (non-trivial: >= 2 sites and a weight != 1); tcf_words: one case per result entry (non-trivial: '
